@@ -131,6 +131,34 @@ SPECS += [
          fuel={"len(self.data) > 1 and self.data[1][0] <= t_min": "len(self.data)"}, props=["C09"]),
 ]
 
+RANGE = "Tuple[Opt[Int],Opt[Int]]"
+CHECK_TIME_CALL = {"lean": "check_time", "args": [1, 2], "argtypes": ["Int", RANGE], "stmt": True}
+
+
+def _get_data_variant(kind, interp, data, val, extra_fields=None, extra_args=None):
+    f = {"data": data}
+    f.update(extra_fields or {})
+    return dict(
+        lean=f"TimeCachingAdapter__get_data_{kind}", path="adapters/time.py", qual="TimeCachingAdapter._get_data",
+        group="Time", fields=f, params={"time": "Int"}, ignore_params=["_target"], ret=val,
+        calls={"check_time": CHECK_TIME_CALL,
+               "self._interpolate": {"lean": interp, "args": ["self.data"] + (extra_args or []) + [0], "ret": val},
+               "self._clear_cached_data": {"lean": "TimeCachingAdapter__clear_cached_data", "args": ["self.data", 0],
+                                           "stmt": True, "updates": ["data"]}},
+        props=["C11"])
+
+
+SPECS += [
+    # ---- adapters/time.py : check_time and the whole `_get_data` of the four interpolation adapters (C11) ---------
+    dict(lean="check_time", path="adapters/time.py", qual="check_time", group="Time",
+         params={"time": "Int", "time_range": RANGE}, ignore_params=["logger"], ret="Unit",
+         assume_false=["not isinstance(time, datetime)"], props=["C11", "C12"]),
+    _get_data_variant("next", "NextTime__interpolate", DATA, "Val"),
+    _get_data_variant("prev", "PreviousTime__interpolate", DATA, "Val"),
+    _get_data_variant("linear", "LinearTime__interpolate", RDATA, "Rat"),
+    _get_data_variant("step", "StepTime__interpolate", DATA, "Val", {"step": "Rat"}, ["self.step"]),
+]
+
 
 def by_group():
     g = {}
